@@ -83,4 +83,52 @@ CHECKS = {
             dict(run="TestWriterFaults", checks_quick=350, checks_thorough=1500, shards_quick=4, shards_thorough=16, timeout=1500),
         ],
     ),
+    "C16": dict(
+        pkg="props/c16", level="exploration",
+        builds={"default": "", "race": ""},
+        technique="property-based testing (rapid) + coverage-guided fuzzing: round trip, differential against the reference decoders/encoders of each format, metamorphic history-independence on pooled objects, concurrent sharing of one codec value",
+        level_text=("Every codec (gzip levels, snappy framed/unframed x 4 compression levels, lz4, zstd levels; fresh values and the shared compress.Codecs entries) x payload recipes "
+                    "(tiny, incompressible, repetitive, mixed; lengths on the xerial flush threshold 31745+-1, 32 KiB+-1, 64 KiB+-1, up to 200 KiB) x partitions into Write calls / io.ReaderFrom x Read buffer sizes / io.WriterTo "
+                    "x source reader types x 1-3 interleaved streams x a history of earlier uses of the pooled objects (complete, abandoned half-read, closed twice, truncated / corrupted / garbage input, failing sink, sibling codec value sharing the pool) "
+                    "x 2-8 goroutines on one codec value. Oracles: identity; compressed bytes decoded by stdlib gzip / hand-parsed xerial + golang/snappy (cross-checked with go-xerial-snappy) / pierrec lz4 / klauspost zstd; "
+                    "reference-encoded streams (raw snappy block, hand-built multi-block xerial, multi-member gzip, lz4 frames with all flag combinations, zstd stream/EncodeAll/multi-frame) read by the codec; "
+                    "a use that fails after a history is re-run on a fresh codec value to attribute the failure to the history. Exploration: all dimensions are sampled."),
+        level_note=("lz4 and zstd reference decoders are the same upstream libraries the codecs wrap (used directly, without the pooling layer); corrupted inputs never touch length fields that could make a decoder allocate gigabytes (that is C20); "
+                    "sequential units run with GOMAXPROCS(1) so that sync.Pool hands the object of the history step to the next use; a data race seen by the race-built TestConcurrent unit surfaces as exit 2 (infrastructure) with the race report in the unit log"),
+        rule=("case = (codec spec, history steps, 1-3 streams each with payload recipe (kind, length, seed) + Write plan + Read plan, optional reference encoder spec, goroutines); "
+              "Non-trivial = payload > 32 KiB (more than one snappy block) or chunked writes/reads or non-empty history or >1 stream or >1 goroutine; distinct by the full case value."),
+        assumptions=["payloads are non-empty", "Read/Write are not mixed with WriteTo/ReadFrom on one object except on the library's own xerial reader/writer",
+                     "objects are not used after Close (Close twice is allowed)", "what a reader returns for damaged input is not judged, only the uses that follow"],
+        units=[
+            dict(run="TestRoundTrip", checks_quick=6000, checks_thorough=150000, shards_thorough=4),
+            dict(run="TestReferenceInterop", checks_quick=2500, checks_thorough=60000, shards_thorough=3),
+            dict(run="TestHistoryIndependence", checks_quick=1300, shards_quick=2, checks_thorough=40000, shards_thorough=6),
+            dict(run="TestConcurrent", checks_quick=800, checks_thorough=15000, shards_thorough=2),
+            dict(run="TestConcurrent", build="race", tier="thorough", checks_thorough=1500, timeout=900),
+            dict(run="FuzzRoundTrip", fuzz=True, tier="thorough", fuzztime_thorough="120s", timeout=400),
+        ],
+    ),
+    "C07": dict(
+        pkg="props/c07", level="exploration",
+        technique="model-based property testing (rapid): generated submitters and retry-provoking fault scripts, order oracle over the fake broker's partition logs",
+        level_text=("Writer scenarios biased to ordering (1-2 partitions, batch size 1-3, 1-3 submitters, sync and async, lost acks / temporary errors / cuts / leader moves on chosen produce requests). "
+                    "Oracle: inside every appended copy the submitter's order is kept, every copy of an earlier batch precedes every copy of a later one, and per submitter the first occurrences in the log are in submission order."),
+        level_note="interleavings of submitters, batch timers and retries are sampled; trusts the fake broker to append requests in arrival order",
+        rule=("case = writer scenario (see C01) with ordering bias; non-trivial = some partition received >= 2 distinct batches and at least one batch was sent more than once; "
+              "distinct by (partitions, batch size, mode, balancer, fault multiset, labels)."),
+        assumptions=["message values carry (submitter, call, index) so that the log can be compared with submission order"],
+        units=[dict(run="TestOrder", checks_quick=400, checks_thorough=1500, shards_quick=4, shards_thorough=16, timeout=1500)],
+    ),
+    "C08": dict(
+        pkg="props/c08", level="exploration",
+        technique="property-based testing (rapid) with boundary-size generators; invariant over every produce request seen by the fake broker plus no-further-input flush checks",
+        level_text=("Message sizes are generated around the limits (exactly BatchBytes, +-1, exactly filling BatchSize), with invalid calls (oversize message, writer-level and message-level topic mixed or missing) mixed in. "
+                    "Every produce request is checked for <= BatchSize records, <= BatchBytes by the pinned size formula and a single topic-partition; rejected calls must leave no trace on the wire; "
+                    "accepted messages must reach the broker without further input (async settle stratum; full-batch stratum with a 10 s timer)."),
+        level_note="time bounds: late-but-arrived is inconclusive, only never-arrived (3 s past BatchTimeout, idle broker) or a full batch waiting >3 s for a 10 s timer is a violation",
+        rule=("case = writer scenario without broker faults, sizes drawn around BatchBytes/BatchSize, 1 in 15 calls with an invalid topic combination; strata by case index: async+settle, full batches with far timer, free. "
+              "Non-trivial = at least one batch closed by size and one by timer, or an invalid call; distinct by (limits, mode, balancer, labels)."),
+        assumptions=["Message size measure = 4+1+1+8+(4+|key|)+(4+|value|)+varint(nHeaders)+sum(varint|k|+|k|+varint|v|+|v|) as documented in message.go"],
+        units=[dict(run="TestSizes", checks_quick=400, checks_thorough=2000, shards_quick=4, shards_thorough=16, timeout=1500)],
+    ),
 }
